@@ -50,6 +50,10 @@ def cases(tier, seed):
     for i in range(n):
         yield {"kind": "hist", "seed": seed, "idx": i, "length": 30 if tier == "quick" else 45,
                "budget": list(BUDGETS)[i % 3]}
+    for i in range(4 if tier == "quick" else 40):
+        # series / frames whose cells differ wildly in size (the size of such a value is estimated from a random sample
+        # of its rows): puts under many states of the sampling generator
+        yield {"kind": "frames", "seed": seed, "idx": i}
 
 
 # ---------------------------------------------------------------- invariant on a live cache
@@ -64,6 +68,10 @@ def cache_invariant(cache):
         bad.append(("usage exceeds the budget", "memory_usage=%r > budget %r"
                     % (cache.memory_usage, cache.memory_cache_bytes)))
     for k, e in cache.cache.items():
+        if e.obj_size < 0:
+            # (memory attributed to an entry is an amount of memory: a negative booking lets the counter run below zero
+            # and admits any amount afterwards)
+            bad.append(("a negative size is booked for a resident entry", "%s size %r" % (k, e.obj_size)))
         if e.obj_size > cache.memory_cache_bytes:
             bad.append(("entry larger than the budget is resident", "%s size %r" % (k, e.obj_size)))
         # attribution: what is booked for an entry is the code's own estimate of what the entry holds
@@ -443,7 +451,46 @@ def run_hist(case, out):
         out["sample"] = {"budget": case["budget"], "ops": ops[:10], "forget_tail": tail}
 
 
+def run_frames(case, out):
+    import numpy as np
+    import pandas as pd
+    from twosigma.memento.storage_base import MemoryCache
+
+    refs = storeops.Refs("c")
+    rng = core.rng_for(case["seed"], ID, "frames", case["idx"])
+    for rep in range(12):
+        cache = MemoryCache(1)
+        n = rng.choice([2000, 20000])
+        vals = ["x"] * n
+        for i in range(0, n, rng.choice([100, 200, 400])):
+            vals[i] = "y" * rng.choice([20000, 200000])
+        obj = pd.Series(vals) if rng.random() < 0.6 else pd.DataFrame({"a": vals, "b": range(n)})
+        np.random.seed(case["idx"] * 100 + rep)  # (the sample of rows is drawn from numpy's global generator)
+        f, a = KEYS[rep % len(KEYS)]
+        cache.put(refs.memento(f, a, obj), obj, has_result=True)
+        out["obs"]["invariant_evaluations"] += 1
+        out["obs"]["frames_with_uneven_cells_put"] += 1
+        for sig, msg in cache_invariant(cache):
+            if len(out["viol"]) < 6:
+                out["viol"].append({"sig": sig, "msg": "%s rows=%d sampling state %d: %s" % (type(obj).__name__, n, case["idx"] * 100 + rep, msg)})
+        # then plain values up to several times the budget: the counter must keep what is resident within the budget
+        for j in range(4):
+            f2, a2 = KEYS[(rep + 1 + j) % len(KEYS)]
+            v = "z" * 400000
+            cache.put(refs.memento(f2, a2, v), v, has_result=True)
+            for sig, msg in cache_invariant(cache):
+                if len(out["viol"]) < 6:
+                    out["viol"].append({"sig": sig, "msg": "after a %s with uneven cells (sampling state %d) and %d strings: %s"
+                                                        % (type(obj).__name__, case["idx"] * 100 + rep, j + 1, msg)})
+            out["obs"]["invariant_evaluations"] += 1
+
+
 def run_case(case):
+    if case.get("kind") == "frames":
+        out = {"viol": [], "nontrivial": [], "obs": collections.Counter()}
+        run_frames(case, out)
+        out["obs"] = dict(out["obs"])
+        return out
     if case.get("kind") == "repo_tests":
         from vf import repotests
 
